@@ -141,10 +141,29 @@ def r2_flatten(ctx):
                           "flatten records the shape `%s`; it must be the number of elements actually stored" % got)
             else:
                 ctx.bad("R14.2", "flatten:row-major", "flatten-loops:%d" % len(fors), c.loc(fn, arm["body"]), "")
+    from ..extract import extract, Unrecognised
+    from .. import arms
     fn = ctx.fn(T + "get_flat")
-    t = pretty(fn["body"])
-    ok = "data.iter().flat_map(|channel| channel.iter().flat_map(|row| row.iter().cloned())).collect()" in t
-    ctx.check("R14.2", "get_flat:row-major", ok, "get_flat:" + short(t, 100), c.loc(fn), "channel -> row -> element")
+    m = arms.data_match(fn["body"])
+    ok, detail = False, "no Triple arm"
+    arms.guarded_arms(ctx, "R14.2", fn, m, "get_flat")
+    for ra in arms.rank_arms(m, ["r0"]):
+        if ra["guard"]:
+            continue
+        if ra["rank"] != "Triple":
+            continue
+        try:
+            r = extract(c, ra["arm"]["body"], ra["roots"], rank=3)
+            if r.body.get("k") == "identity":
+                ok, detail = r.levels == 3, "levels=%d style=%s" % (r.levels, r.style)
+            else:
+                sem = e1.Sym(c, r.cellname(c)).run(r.body)
+                v = sem[0][1].get("<value>") if len(sem) == 1 else None
+                ok, detail = (r.levels == 3 and v == Rat.atom("r0")), "levels=%d value=%s" % (r.levels, v)
+        except (Unrecognised, ValueError) as e:
+            ok, detail = False, str(e)
+    ctx.check("R14.2", "get_flat:row-major", ok, "get_flat:" + short(detail, 100), c.loc(fn), "every element, channel -> row -> element, in order",
+              "get_flat's 3-D arm is not a plain in-order traversal of all elements: %s" % detail)
     fn = ctx.fn(T + "get_triple")
     m = [x for x in walk(fn["body"]) if x.get("k") == "match" and x.get("src") == "Normal"][0]
     okg = False
